@@ -322,7 +322,8 @@ impl Model for M2 {
                 let got = item.unwrap_or(ObsItem::End);
                 if got != want {
                     let sum = format!("program:\n{}schedule: {:?}\niterator {j} item {}: expected {} (as in a solo run), got {}", p.text, n.schedule, s.pos[j], want.brief(), got.brief());
-                    st.violation("interleaved iterators interfere", n.schedule.len() as u64, sum, || json!({"kind": "none", "expected": [want.brief()], "observed": [got.brief()]}));
+                    let sched_txt: Vec<String> = n.schedule.iter().map(act_text).collect();
+                    st.violation("interleaved iterators interfere", n.schedule.len() as u64, sum, || json!({"kind": "interleave", "text": p.text, "signals": sigs_json(&p.sigs), "iterators": self.k, "schedule": sched_txt, "expected": [want.brief()], "observed": [got.brief()]}));
                     return None;
                 }
                 if s.pos.iter().enumerate().any(|(i, x)| i != j && *x > 0 && (*x as usize) < p.solo.len()) {
@@ -336,7 +337,8 @@ impl Model for M2 {
                 if (s.pos[j] as usize) < p.solo.len() && p.solo[s.pos[j] as usize].is_row() && vars != want_vars {
                     let mut st = self.stats.lock().unwrap();
                     let sum = format!("program:\n{}schedule: {:?}\niterator {j}: vars() = {vars:?}, solo run {want_vars:?}", p.text, sched);
-                    st.violation("vars() differs under interleaving", sched.len() as u64, sum, || json!({"kind": "none"}));
+                    let sched_txt: Vec<String> = sched.iter().map(act_text).collect();
+                    st.violation("vars() differs under interleaving", sched.len() as u64, sum, || json!({"kind": "interleave", "text": p.text, "signals": sigs_json(&p.sigs), "iterators": self.k, "schedule": sched_txt, "expected": [format!("{want_vars:?}")], "observed": [format!("{vars:?}")]}));
                     return None;
                 }
                 n.pos[j] += 1;
@@ -356,6 +358,43 @@ impl Model for M2 {
     fn properties(&self) -> Vec<Property<Self>> {
         vec![Property::always("positions stay within the run", |m: &M2, s: &St2| s.pos.iter().all(|x| (*x as usize) <= m.progs[s.prog as usize].solo.len() + 1))]
     }
+}
+
+fn act_text(a: &Act2) -> String {
+    match a {
+        Act2::Step(j) => format!("step {j}"),
+        Act2::Restart(j) => format!("restart {j}"),
+        Act2::Vars(j) => format!("vars {j}"),
+    }
+}
+
+pub fn replay_interleave(j: &serde_json::Value) -> Vec<String> {
+    let text = j["text"].as_str().unwrap_or("").to_string();
+    let sigs: Vec<Sig> = j["signals"].as_array().map(|a| a.iter().filter_map(|s| s.as_str().and_then(Sig::parse)).collect()).unwrap_or_default();
+    let k = j["iterators"].as_u64().unwrap_or(2) as usize;
+    let schedule: Vec<Act2> = j["schedule"]
+        .as_array()
+        .map(|a| {
+            a.iter()
+                .filter_map(|s| {
+                    let (w, n) = s.as_str()?.split_once(' ')?;
+                    let n: u8 = n.parse().ok()?;
+                    Some(match w {
+                        "step" => Act2::Step(n),
+                        "restart" => Act2::Restart(n),
+                        _ => Act2::Vars(n),
+                    })
+                })
+                .collect()
+        })
+        .unwrap_or_default();
+    let Ok(tc) = load(&text, &sigs, DEFAULT_BUDGET) else { return vec!["does not load".into()] };
+    let p = Prog2 { text, sigs, tc, solo: vec![], solo_vars: vec![] };
+    let (item, vars) = replay_schedule(&p, k, &schedule);
+    vec![match (item, vars) {
+        (Some(i), _) => i.brief(),
+        (None, v) => format!("{v:?}"),
+    }]
 }
 
 fn part2_programs() -> Vec<(String, Vec<Sig>)> {
